@@ -553,7 +553,17 @@ fn driver(p: &'static dyn Prop, tier: Tier) -> i32 {
                         // process to process: what is compared is the multiset of tokens of the observation, not their order)
                         let tokens = |s: &str| -> String {
                             // (measured durations differ from run to run: digits are compared as a class)
-                            let masked: String = s.chars().map(|c| if c.is_ascii_digit() { '0' } else { c }).collect();
+                            // (every run of digits and decimal points becomes one '0': the number of printed digits varies too)
+                            let mut masked = String::with_capacity(s.len());
+                            for c in s.chars() {
+                                if c.is_ascii_digit() || (c == '.' && masked.ends_with('0')) {
+                                    if !masked.ends_with('0') {
+                                        masked.push('0');
+                                    }
+                                } else {
+                                    masked.push(c);
+                                }
+                            }
                             let mut t: Vec<&str> = masked.split(|c: char| !c.is_alphanumeric() && c != '_' && c != '-').filter(|x| !x.is_empty()).collect();
                             t.sort_unstable();
                             t.dedup();
